@@ -214,6 +214,7 @@ namespace Givaro {
     template <class Domain>
     inline typename Poly1Dom<Domain,Dense>::Rep& Poly1Dom<Domain,Dense>::diff(Rep& P, const Rep& Q) const
     {
+        if (&P == &Q) { Rep T; diff(T, Q); return assign(P, T); } // P may be the same object as Q
         Degree dQ;
         degree(dQ, Q);
         if ((dQ == Degree::deginfty) || (dQ == 0)) {
@@ -258,6 +259,7 @@ namespace Givaro {
         // ID.write(cerr << "\n----------- POWMOD -----------\n pwr: ", pwr) << endl;
         // write(cerr << "P: ",P) << endl;
         // write(cerr << "U: ",U) << endl;
+        if (&W == &U) { Rep Ut; assign(Ut, U); return powmod(W, P, pwr, Ut); } // W may be the same object as U
         Rep puiss, tmp;
         mod(puiss, P, U);
         assign(W,one);
@@ -363,6 +365,7 @@ namespace Givaro {
     template <class Domain>
     inline typename Poly1Dom<Domain,Dense>::Rep& Poly1Dom<Domain,Dense>::reverse( Rep& P, const Rep& Q) const {
 
+        if (&P == &Q) return reversein(P); // reverse_copy needs disjoint ranges
         P.resize(Q.size());
         std::reverse_copy(Q.begin(), Q.end(), P.begin());
         this->setDegree(P);
